@@ -90,6 +90,17 @@ def gen_field(rng, p_odd=0.08, allow_fold=True):
 
 def gen_fields(rng, p_odd=0.08, maxn=4):
     fs = [gen_field(rng, p_odd) for _ in range(rng.randint(0, maxn))]
+    r = rng.random()
+    if r < 0.03:
+        # many fields
+        fs += [gen_field(rng, p_odd, allow_fold=False) for _ in range(rng.randint(8, 24))]
+    elif r < 0.06 and fs:
+        # one field three or four times, possibly in different letter case
+        f = rng.choice(fs)
+        for _ in range(rng.randint(2, 3)):
+            i = f.find(b":")
+            g = case_perm(rng, f[:i]) + f[i:] if i > 0 and rng.random() < 0.5 else f
+            fs.insert(rng.randint(0, len(fs)), g)
     if rng.random() < 0.04:
         # a long header line, around the 1000-byte default limit of requests (responses have no limit)
         total = rng.choice([990, 997, 998, 999, 1000, 1001, 1002, 1010, 1500])
@@ -102,9 +113,17 @@ def block(fields):
     return b"".join(f + CRLF for f in fields) + CRLF
 
 
+POW2_LENGTHS = [255, 256, 257, 511, 512, 1023, 1024, 1025, 4095, 4096, 4097, 8192, 16384, 65535, 65536, 65537]
+
+
 def gen_body(rng, maxlen=40):
     k = rng.random()
     n = rng.randint(0, maxlen)
+    if maxlen >= 30 and rng.random() < 0.02:
+        # lengths at buffer-size boundaries
+        n = rng.choice(POW2_LENGTHS)
+        unit = rng.choice([b"x", b"ab\r\n", b"0123456789abcdef", b"\r", b"\n"])
+        return (unit * (n // len(unit) + 1))[:n]
     if k < 0.3:
         return bytes(rng.randrange(256) for _ in range(n))
     if k < 0.5:
@@ -200,7 +219,7 @@ def gen_chunked(rng, p_odd=0.0, payload=None):
     out = b""
     i = 0
     while i < len(payload):
-        n = rng.randint(1, max(1, min(17, len(payload) - i)))
+        n = rng.randint(1, max(1, min(17 if len(payload) < 2000 else 8192, len(payload) - i)))
         size = hexnum(rng, n)
         if rng.random() < p_odd:
             size = rng.choice(HEX_ODD)
@@ -335,8 +354,13 @@ def schedules(rng, s, n_random=3, with_empty=True):
     n = len(s)
     if n <= 1:
         return out
-    out.append([s[i:i + 1] for i in range(n)])                 # one byte at a time
-    interesting = [i + d for i, c in enumerate(s) if c in (13, 10) for d in (0, 1, 2)]
+    if n <= 3000:
+        out.append([s[i:i + 1] for i in range(n)])             # one byte at a time
+    else:
+        # long streams (bodies at buffer-size boundaries): byte at a time through the head, then blocks --
+        # the model appends lists, a delivery per body byte would cost O(n^2) there
+        out.append([s[i:i + 1] for i in range(300)] + [s[i:i + 1000] for i in range(300, n, 1000)])
+    interesting = [i + d for i, c in enumerate(s[:3000]) if c in (13, 10) for d in (0, 1, 2)][:150]
     for c in rng.sample(interesting, min(len(interesting), 4)):
         out.append(cut_at(s, [c]))
     if interesting:
